@@ -54,6 +54,7 @@ def atoms():
         S("MB"),
         S("MC"),
         S("GA"),
+        [">", S("UF"), C("1.5")],   # a float literal in a relation
     ]
 
 
@@ -90,6 +91,7 @@ def base_entries(target):
         g("UB2", "y"),
         mk_config("UI", "int", prompt=Y, defaults=[{"v": C("3"), "c": Y}]),
         mk_config("US", "string", prompt=Y, defaults=[{"v": C("chipa"), "c": Y}]),
+        mk_config("UF", "float", prompt=Y, defaults=[{"v": C("2.5"), "c": Y}]),
         mk_config("HELP_D", "bool", dep=S("UB"), defaults=[{"v": ["y"], "c": Y}]),
         mk_config("HELP_D2", "bool", dep=S("UB2"), defaults=[{"v": ["y"], "c": S("IDF_TARGET_CHIPA")}, {"v": ["y"], "c": S("IDF_TARGET_CHIPB")}]),
         {"k": "if", "c": S("UB"), "children": [mk_config("HELP_IF", "bool", defaults=[{"v": ["y"], "c": Y}])]},
@@ -127,6 +129,7 @@ def base_entries(target):
         {"n": "UB2", "kind": "sym", "cands": [NOVAL, "n"]},
         {"n": "UI", "kind": "sym", "cands": [NOVAL, "2", "4", "7"]},
         {"n": "US", "kind": "sym", "cands": [NOVAL, "", "chipb"]},
+        {"n": "UF", "kind": "sym", "cands": [NOVAL, "0.5"]},
     ]
     return ents, vars_
 
@@ -197,8 +200,8 @@ def to_abstract(expr, kconf, names):
         return ["n"]
     if expr.name in names:
         return ["s", expr.name]
-    if expr.is_constant or core._looks_like_number(expr.name):
-        return ["c", expr.name]
+    if expr.is_constant or core._looks_like_number(expr.name) or re.fullmatch(r"-?[0-9]*\.[0-9]+|-?[0-9]+\.[0-9]*", expr.name):
+        return ["c", expr.name]  # (the harness's own notion of a numeric literal: floats included)
     return ["s", expr.name]  # undefined reference
 
 
